@@ -1,6 +1,7 @@
 """Engine for the control-server properties C16..C19."""
 from __future__ import annotations
 
+import asyncio
 import copy
 import inspect
 import itertools
@@ -238,11 +239,11 @@ def gen_command(rng, cls, short=False):
         direct_pos.extend([e, c])
 
     if k == "apply":
-        fn = rng.choice(["work", "job"])
+        fn = rng.choice(["work", "job", "mutator"])
         text = ["apply", W + fn]
         args, kwargs, num, gname = (), None, 1, None
         if rng.random() < 0.5:
-            args = rng.choice([(), (1,), (1, 2), ("x",), (1, "y", 3.5)])
+            args = rng.choice([(), (1,), (1, 2), ("x",), (1, "y", 3.5), ([1, 2],), ([1, 2], {"a": [3]})])
             text.append(opt("--args", "-a") + " " + lit(args))
         if rng.random() < 0.4:
             kwargs = rng.choice([{}, {"a": 1}, {"a": 1, "b": "z"}])
@@ -260,12 +261,14 @@ def gen_command(rng, cls, short=False):
         return " ".join(text), {"m": "apply", "a": pos}
     if k in ("map", "starmap", "doublestarmap"):
         if k == "map":
-            it = rng.choice([[1, 2, 3], (1, 2), [], "ab", [7]])
+            it = rng.choice([[1, 2, 3], (1, 2), [], "ab", [7], [[1, 2], [3]], [[1, 2], [3]]])
         elif k == "starmap":
             it = rng.choice([[(1, 2), (3, 4)], [(1,)], [], [(1, 2, 3), (4,)]])
         else:
             it = rng.choice([[{"a": 1}, {"b": 2}], [{}], [], [{"a": 1, "c": "x"}]])
-        text = [k, W + "work", lit(it)]
+        mfn = "mutator" if (k == "map" and it == [[1, 2], [3]]) else "work"
+        F = {"$func": mfn}
+        text = [k, W + mfn, lit(it)]
         nc, gname = 1, None
         if rng.random() < 0.6:
             nc = rng.choice([1, 2, 3, 0, -2])
@@ -342,7 +345,13 @@ def c17_unit(rng, seed):
         gates = []
         if rng.random() < 0.5:
             gates = [rng.randrange(8) for _ in range(rng.choice([1, 2, 4]))]
+        if "mutator" in text:
+            gates = list(range(12))      # let the mutating workers finish before the text is sent again
         cmds.append({"text": text, "direct": direct, "gates": gates})
+        if "mutator" in text or rng.random() < 0.1:
+            # the very same command text again, twice more (with two alternating sessions one of them sees it twice)
+            cmds.append({"text": text, "direct": copy.deepcopy(direct), "gates": list(range(12, 24))})
+            cmds.append({"text": text, "direct": copy.deepcopy(direct), "gates": list(range(24, 36))})
         if rng.random() < 0.3:
             # noise: a help request / usage error on another session; must not leak into anybody's reply
             base = text.split(" ")[0]
@@ -641,6 +650,23 @@ def c19_run(rng):
     return {"prop": "C19", "config": cfg, "steps": steps, "final": ["c19"]}
 
 
+def c19_killed_session_run(rng):
+    """A session that ends with a BaseException: a worker cancels a not-yet-started sibling (recorded finding
+    F-EARLY), then gather-and-close raises CancelledError inside the session.  Only C19's oracles are in force."""
+    cfg = base_config(rng, "S", frag=0.0)
+    cfg["net"]["max_chunk"] = 0
+    cfg["size"] = None
+    steps = [{"op": "start"}, {"op": "idle"}, {"op": "connect", "c": 1, "w": 80}, {"op": "connect", "c": 2, "w": 80}, {"op": "idle"},
+             {"op": "line", "c": 1, "text": "start " + str(rng.choice([2, 3, 4]))}, {"op": "idle"},
+             {"op": "line", "c": 1, "text": "gather-and-close"}, {"op": "idle"}]
+    for k in range(6):
+        steps.append({"op": "gate", "k": k})
+    steps += [{"op": "idle"}, {"op": "line", "c": 2, "text": "is-locked"}, {"op": "idle"}]
+    if rng.random() < 0.5:
+        steps += [{"op": "stop"}, {"op": "idle"}]
+    return {"prop": "C19", "config": cfg, "steps": steps, "final": ["c19"], "simple_func": "stopper", "expect_killed": [1]}
+
+
 def _final_c19(sim):
     """After the recorded steps: let the remaining clients go, then the stopped server must be gone."""
     import os
@@ -651,9 +677,19 @@ def _final_c19(sim):
         return
     # every raw client that is still connected was answered line by line
     for c in sim.clients.values():
-        if c.kind == "raw" and c.connected and not c.gone and not sim.stopped and not c.bad_handshake:
+        if c.kind == "raw" and c.connected and not c.gone and not sim.stopped and not c.bad_handshake \
+                and c.label not in sim.run.get("expect_killed", ()):
             if len(c.replies()) != len(c.lines):
                 sim.violate("C19", "client_not_served", f"client {c.label}: {len(c.replies())} replies for {len(c.lines)} lines while the server is up")
+    shapes = {"num-running": r"\d+\n", "is-locked": r"(True|False)\n", "pool-size": r"(\d+|inf)\n", "lock": r"ok\n", "unlock": r"ok\n",
+              "cancel-all": r"ok\n", "-h": r"usage: \[-h\]", "bogus": r"usage: [\s\S]*invalid choice"}
+    for c in sim.clients.values():
+        if c.kind == "raw" and c.connected and not c.bad_handshake:
+            for ln, rep in zip(c.lines, c.replies()):
+                pat = shapes.get(ln.strip())
+                if pat and not re.match(pat, rep):
+                    sim.violate("C19", "reply_shape", f"client {c.label}: {ln!r} answered with {rep[:70]!r} while other clients were being served")
+                    break
     for c in sim.clients.values():
         if c.kind == "cli" and c.finished:
             out = "\n".join(c.printed)
@@ -776,6 +812,9 @@ def units(prop, tier, seed):
         return
     n = QUICK_N[prop]
     i = 0
+    if prop == "C19":
+        for k in range(8 if tier == "quick" else 60):
+            yield ("killed", subseed(seed, prop, "killed", k), next(order))
     while tier != "quick" or i < n:
         yield ("rand", subseed(seed, prop, "rand", i), next(order))
         i += 1
@@ -853,6 +892,12 @@ def exec_unit(prop, unit, agg):
             a.violate("C17", mism[0], mism[1])
         a.run = {"prop": "C17", "config": cfg, "cmds": cmds, "steps": [], "seed": arg, "twin": True}
         _account(prop, a, agg, order, "twin", len(a.invocations) > 0 or any(r not in ("ok", None) for r in ra))
+        return
+    if kind == "killed":
+        sim = CtlSim(c19_killed_session_run(random.Random(arg)), {prop}).execute()
+        killed = any(isinstance(x[1], asyncio.CancelledError) or "CancelledError" in repr(x) for x in sim.session_exceptions())
+        agg.stats["probe:session_ended_by_base_exception"] += int(killed)
+        _account(prop, sim, agg, order, "killed_session", True)
         return
     if kind == "sweep" and prop == "C18":
         # one client disconnects (close / abort / eof) at sampled handle positions: the others must not notice
